@@ -884,3 +884,44 @@ mutant("c13-last-reward-first", "C13", "R13.a", REW,
 refactor("c13-r-inline", "C13", REW,
          "        reward = last_makespan - self.current_makespan\n        self.rewards.append(reward)",
          "        self.rewards.append(last_makespan - self.current_makespan)")
+
+# ------------------------------------------------------------------ C16
+BDG = "job_shop_lib/graphs/_build_disjunctive_graph.py"
+BAT = "job_shop_lib/graphs/_build_agent_task_graph.py"
+mutant("c16-one-direction", "C16", "R16.a", BAT,
+       "            graph.add_edge(job_node, operation_node)\n            graph.add_edge(operation_node, job_node)", "            graph.add_edge(job_node, operation_node)")
+mutant("c16-asym-type", "C16", "R16.a", BDG,
+       "                node2,\n                node1,\n                type=EdgeType.DISJUNCTIVE,", "                node2,\n                node1,\n                type=EdgeType.CONJUNCTIVE,")
+mutant("c16-conj-reversed", "C16", "R16.b", BDG,
+       "                job_operations[i - 1],\n                job_operations[i],", "                job_operations[i],\n                job_operations[i - 1],")
+mutant("c16-conj-skip-first", "C16", "R16.b", BDG,
+       "        for i in range(1, len(job_operations)):", "        for i in range(2, len(job_operations)):")
+mutant("c16-solved-all-pairs", "C16", "R16.c", BDG,
+       "    graph = JobShopGraph(schedule.instance)\n    add_conjunctive_edges(graph)", "    graph = JobShopGraph(schedule.instance)\n    add_disjunctive_edges(graph)\n    add_conjunctive_edges(graph)",
+       "the solved graph keeps all-pairs disjunctive edges: cyclic")
+mutant("c16-complete-mm", "C16", "R16.c", BAT,
+       "    add_job_nodes(graph)\n    add_operation_job_edges(graph)\n\n    add_global_node(graph)", "    add_machine_machine_edges(graph)\n    add_job_nodes(graph)\n    add_operation_job_edges(graph)\n\n    add_global_node(graph)")
+mutant("c16-missing-samejob", "C16", "R16.c", BAT,
+       "    add_machine_machine_edges(graph)\n\n    add_same_job_operations_edges(graph)", "    add_machine_machine_edges(graph)")
+mutant("c16-counter-from-1", "C16", "R16.d", GRAPH,
+       "        self._next_node_id = 0", "        self._next_node_id = 1")
+mutant("c16-first-machine-index", "C16", "R16.d", GRAPH,
+       "            for machine_id in operation.machines:\n                self._nodes_by_machine[machine_id].append(node_for_adding)",
+       "            self._nodes_by_machine[operation.machines[0]].append(node_for_adding)",
+       "flexible operations indexed under their first machine only")
+mutant("c16-mm-partial", "C16", "R16.e", BAT,
+       "        graph.nodes_by_type[NodeType.MACHINE], 2\n    ):\n        graph.add_edge(machine1, machine2)",
+       "        graph.nodes_by_type[NodeType.MACHINE][1:], 2\n    ):\n        graph.add_edge(machine1, machine2)")
+mutant("c16-solved-skip-last", "C16", "R16.e", BDG,
+       "            if i + 1 >= len(machine_schedule):", "            if i + 2 >= len(machine_schedule):")
+mutant("c16-solved-by-job", "C16", "R16.e", BDG,
+       "                scheduled_operation.operation.operation_id,\n                next_scheduled_operation.operation.operation_id,",
+       "                scheduled_operation.operation.job_id,\n                next_scheduled_operation.operation.job_id,")
+refactor("c16-r-zip", "C16", BDG,
+         """        for i, scheduled_operation in enumerate(machine_schedule):
+            if i + 1 >= len(machine_schedule):
+                break
+            next_scheduled_operation = machine_schedule[i + 1]
+            graph.add_edge(""",
+         """        for scheduled_operation, next_scheduled_operation in zip(machine_schedule, machine_schedule[1:]):
+            graph.add_edge(""")
